@@ -142,6 +142,8 @@ func check(base, u string) string {
 
 var fixedBases = []string{
 	"/data", "/", "/data/", "/a/b/c", "/a//b/", "/a/../b", "/a/./b/..", "data", "./data", ".", "..", "../x", "a/../..", "/with space/b\\c",
+	// names a shell would expand but a path function must take literally
+	"~", "~/public", "~/", "~root/x", "$HOME/pub", "/srv/~/x",
 }
 
 func TestRegression(t *testing.T) {
@@ -251,7 +253,7 @@ func genBase() *rapid.Generator[string] {
 		}
 		n := rapid.IntRange(0, 5).Draw(t, "n")
 		for i := 0; i < n; i++ {
-			sb.WriteString(rapid.SampledFrom([]string{"a", "b", "..", ".", "data", "x y", "b\\c", "é", "...", "..a"}).Draw(t, "seg"))
+			sb.WriteString(rapid.SampledFrom([]string{"a", "b", "..", ".", "data", "x y", "b\\c", "é", "...", "..a", "~", "~a", "$HOME"}).Draw(t, "seg"))
 			sb.WriteString(strings.Repeat("/", rapid.IntRange(0, 2).Draw(t, "sep")))
 		}
 		s := sb.String()
